@@ -135,15 +135,21 @@ Definition expect_new (r : row) (v : Z) : res Z :=
 
 (* fn add/sub(self, other) { if cfg!(debug_assertions) { $T::new(self.0 OP other.0).expect(..) }
                              else { $T(self.0 OP other.0).wrap_overflow_once() } }
-   fn mul(self, other)     { if cfg!(debug_assertions) { $T::new(self.0 * other.0).expect(..) }
-                             else { $T::from(self.0 * other.0) } } *)
+   fn mul(self, other)     { if cfg!(debug_assertions) {
+                                 self.0.checked_mul(other.0).and_then($T::new).expect(..) }
+                             else { $T::from(self.0.wrapping_mul(other.0)) } }
+   (Mul as of /repo 45c5fdf: checked_mul = None when the product does not fit the Rep, whatever the
+    overflow-checks setting; wrapping_mul = two's-complement reduction, whatever the setting) *)
 Definition arith (c : cfg) (r : row) (o : binop) (a b : Z) : res Z :=
-  let* s := prim c (rep r) (exact o a b) in
-  if debug_assertions c then expect_new r s
-  else match o with
-       | OAdd | OSub => wrap_overflow_once c r s
-       | OMul => from_rep c r s
-       end.
+  match o with
+  | OAdd | OSub =>
+      let* s := prim c (rep r) (exact o a b) in
+      if debug_assertions c then expect_new r s else wrap_overflow_once c r s
+  | OMul =>
+      if debug_assertions c then
+        (if in_ity (rep r) (a * b) then expect_new r (a * b) else Panic PExpect)
+      else from_rep c r (iwrap (rep r) (a * b))
+  end.
 
 (* impl_neg!: fn neg(self) { if cfg!(debug_assertions) { $T::new(-self.0).expect(..) }
                             else { $T(-self.0).wrap_overflow_once() } }
